@@ -182,7 +182,7 @@ def commonOp (cfg : Cfg) (s : AState) : Op → Option AState
     | t :: rest => some { s with start := t, sstack := rest }
   | .top =>
     match s.sstack with
-    | [] => some (s.fatal "underflow-top")     -- reading the top of an empty stack is not permitted
+    | [] => some (s.emit s!"top {s.start}")    -- the code's choice for an empty stack: the current start condition
     | t :: _ => some (s.emit s!"top {t}")
   | .start => some (s.emit s!"start {s.start}")
   | .setbol b =>
